@@ -26,10 +26,20 @@ package latch
 //            between Lock-return and UnLock, nothing completes any more and
 //            goroutines sit in Lock, that is a lost wake-up / deadlock;
 //            otherwise the case is inconclusive.
+//
+// The unlock-burst families further down (runBurst) put the single scheduler
+// goroutine and its bounded unlock channel under back-pressure (hundreds of
+// UnLock calls at once while the goroutine is busy or blocked); they use the
+// same request path and the same oracles.  Their only white-box parts: the
+// slot mutexes are held during the burst in the "stall" family (a schedule
+// perturbation) and len(unlockCh) is read for coverage and for the "scheduler
+// idle" part of the progress analysis.
 
 import (
+	"encoding/binary"
 	"fmt"
 	"math/rand"
+	"os"
 	"runtime"
 	"sort"
 	"sync"
@@ -58,16 +68,17 @@ func (x *c17sRec) String() string {
 }
 
 type c17sParams struct {
-	Session   int    `json:"session"`
-	Seed      int64  `json:"seed"`
-	Size      uint   `json:"table_size"`
-	PoolN     int    `json:"pool_keys"`
-	G         int    `json:"goroutines"`
-	Rounds    int    `json:"rounds"`
-	PerG      int    `json:"txns_per_goroutine_per_round"`
-	Realistic bool   `json:"tso_mode"` // true: start/commit from one increasing counter; false: random inside a sliding window
-	Base      uint64 `json:"ts_base"`
-	Prefix    string `json:"key_prefix"`
+	Session   int         `json:"session"`
+	Seed      int64       `json:"seed"`
+	Size      uint        `json:"table_size"`
+	PoolN     int         `json:"pool_keys"`
+	G         int         `json:"goroutines"`
+	Rounds    int         `json:"rounds"`
+	PerG      int         `json:"txns_per_goroutine_per_round"`
+	Realistic bool        `json:"tso_mode"` // true: start/commit from one increasing counter; false: random inside a sliding window
+	Base      uint64      `json:"ts_base"`
+	Prefix    string      `json:"key_prefix"`
+	Burst     *c17bParams `json:"burst,omitempty"` // set for the unlock-burst families
 }
 
 type c17sSession struct {
@@ -80,7 +91,9 @@ type c17sSession struct {
 	inLock  atomic.Int64
 	holding atomic.Int64
 	done    atomic.Int64
-	r       *vrep.Report
+	// unlCalled counts UnLock calls that have begun (burst families)
+	unlCalled atomic.Int64
+	r         *vrep.Report
 }
 
 func c17sYield(rng *rand.Rand) {
@@ -117,6 +130,20 @@ func (s *c17sSession) worker(g, round int, rng *rand.Rand, out *[]*c17sRec) {
 		for i, k := range perm {
 			ks[i] = append([]byte(nil), s.pool[k]...)
 		}
+		if !s.request(rec, ks, rng, 5, nil) {
+			return
+		}
+		*out = append(*out, rec)
+	}
+}
+
+// request performs one transaction the way KVTxn.Commit uses the scheduler:
+// Lock; if stale: UnLock; else "commit" (1 in rollbackOneIn rolled back; 0:
+// never), SetCommitTS, UnLock.  rec.Start and rec.Keys are set by the caller.
+// hold, if given, runs after Lock returned and before the commit / UnLock (the
+// burst families park their holders there).  false: Lock panicked.
+func (s *c17sSession) request(rec *c17sRec, ks [][]byte, rng *rand.Rand, rollbackOneIn int, hold func(stale bool)) bool {
+	{
 		rec.Call = s.seq.Add(1)
 		s.inLock.Add(1)
 		var lock *Lock
@@ -130,7 +157,7 @@ func (s *c17sSession) worker(g, round int, rng *rand.Rand, out *[]*c17sRec) {
 		}()
 		if lock == nil {
 			s.inLock.Add(-1)
-			return
+			return false
 		}
 		s.holding.Add(1)
 		s.inLock.Add(-1)
@@ -143,9 +170,12 @@ func (s *c17sSession) worker(g, round int, rng *rand.Rand, out *[]*c17sRec) {
 						map[string]any{"params": s.p})
 				}
 			}
+			if hold != nil {
+				hold(false)
+			}
 			runtime.Gosched() // the commit
 			c17sYield(rng)
-			if rng.Intn(5) != 0 {
+			if rollbackOneIn <= 0 || rng.Intn(rollbackOneIn) != 0 {
 				if s.p.Realistic {
 					rec.Commit = s.tso.Add(1)
 				} else {
@@ -156,13 +186,16 @@ func (s *c17sSession) worker(g, round int, rng *rand.Rand, out *[]*c17sRec) {
 			for _, k := range rec.Keys {
 				s.holders[k].Add(-1)
 			}
+		} else if hold != nil {
+			hold(true)
 		}
 		rec.Unl = s.seq.Add(1)
+		s.unlCalled.Add(1)
 		s.sched.UnLock(lock)
 		s.holding.Add(-1)
 		s.done.Add(1)
-		*out = append(*out, rec)
 	}
+	return true
 }
 
 // run returns false when the session could not be completed (stuck)
@@ -284,12 +317,424 @@ func (s *c17sSession) check(recs []*c17sRec) {
 	}
 }
 
+// ---------------------------------------------------------------------------
+// Unlock-burst families: back-pressure on the scheduler goroutine.
+//
+// Every release and every wake-up goes through one goroutine fed by a bounded
+// channel (lockChanSize entries).  The sessions above never have more than a
+// dozen unlocks in flight, so that hand-off is never under pressure.  A burst
+// session lets 150..600 goroutines each take a private lock (1..3 keys, never
+// contended), parks them, queues some early requests on those keys (they have
+// to be woken), and then lets every holder commit and UnLock at once while the
+// scheduler goroutine cannot keep up:
+//   huge-lock: one lock of 10^5..10^6 keys is unlocked just before the burst
+//              (the scheduler goroutine is busy releasing it);
+//   stall    : the slot mutexes are held for the duration of the burst, as by
+//              acquirers descheduled inside their critical sections (the
+//              scheduler goroutine blocks at its first release) - a schedule
+//              perturbation, not a different input;
+//   plain    : nothing but the burst itself.
+// Afterwards a fresh request for every key (and some multi-key ones; start ts
+// taken before or after the commits) must return; all requests are judged by
+// the same history oracle (exclusivity, stale exactly when due).
+// Progress is decided on the logical state: when the watchdog (ten times the
+// set-up time of the session, which contains work comparable to the release)
+// fires and over a further observation window nobody is between Lock-return
+// and UnLock-return, the unlock channel is empty, nothing completes and
+// requests still sit in Lock, an unlock or a wake-up was lost.
+// Coverage (white-box, observation only): len(unlockCh) is sampled during the
+// burst; sessions that saw it full are counted and have a floor.
+
+type c17bParams struct {
+	Family          string `json:"family"`
+	Holders         int    `json:"holders"`
+	SmallKeys       int    `json:"small_keys"`
+	HugeKeys        int    `json:"huge_lock_keys"`
+	Early           int    `json:"early_waiters"`
+	FreshMulti      int    `json:"fresh_multi_key_requests"`
+	FreshConcurrent bool   `json:"fresh_requests_concurrent_with_burst"`
+}
+
+const c17bSample = 8 // keys of the huge lock that are part of the judged pool
+
+// awaitOrAnalyse waits for wg; true: everybody finished.
+func (s *c17sSession) awaitOrAnalyse(wg *sync.WaitGroup, wd time.Duration, phase string) bool {
+	fin := make(chan struct{})
+	go func() { wg.Wait(); close(fin) }()
+	select {
+	case <-fin:
+		return true
+	case <-time.After(wd):
+	}
+	state := func() [4]int64 {
+		return [4]int64{s.inLock.Load(), s.holding.Load(), s.done.Load(), int64(len(s.sched.unlockCh))}
+	}
+	a := state()
+	stable := true
+	for i := 0; i < 5 && stable; i++ {
+		select {
+		case <-fin:
+			return true
+		case <-time.After(2 * time.Second):
+		}
+		stable = a == state()
+	}
+	select {
+	case <-fin:
+		return true
+	default:
+	}
+	if stable && a[1] == 0 && a[3] == 0 && a[0] > 0 {
+		s.r.Violate("bb:burst-lock-never-returns", fmt.Sprintf("after an unlock burst (%s, %d holders unlocking at once) %d requests sit in LatchesScheduler.Lock although every holder's UnLock has returned, the unlock channel is empty and nothing completes any more (%d UnLock calls made, %d requests completed; phase %s; watchdog %v >= ten times the set-up): a dropped unlock / lost wake-up",
+			s.p.Burst.Family, s.p.Burst.Holders, a[0], s.unlCalled.Load(), a[2], phase, wd), map[string]any{"params": s.p})
+	} else {
+		s.r.Inconc("c17-stress burst session %d (%s) phase %s: watchdog %v fired (inLock=%d holding=%d done=%d unlockCh=%d stable=%v)", s.p.Session, s.p.Burst.Family, phase, wd, a[0], a[1], a[2], a[3], stable)
+	}
+	return false
+}
+
+func (s *c17sSession) runBurst(rng *rand.Rand) (recs []*c17sRec, ok bool) {
+	bp := s.p.Burst
+	t0 := time.Now()
+	s.sched = NewScheduler(s.p.Size)
+	defer s.sched.Close()
+
+	// holders: consecutive private keys
+	nks := make([]int, bp.Holders)
+	bp.SmallKeys = 0
+	for h := range nks {
+		nks[h] = 1
+		if rng.Intn(4) == 0 {
+			nks[h] = 2 + rng.Intn(2)
+		}
+		bp.SmallKeys += nks[h]
+	}
+	nSample := 0
+	if bp.HugeKeys > 0 {
+		nSample = c17bSample
+	}
+	s.p.PoolN = bp.SmallKeys + nSample
+	s.pool = make([][]byte, s.p.PoolN)
+	for i := 0; i < bp.SmallKeys; i++ {
+		s.pool[i] = []byte(fmt.Sprintf("%s-%05d", s.p.Prefix, i))
+	}
+	var hugeKeys [][]byte
+	if bp.HugeKeys > 0 {
+		const w = 11
+		buf := make([]byte, w*bp.HugeKeys)
+		hugeKeys = make([][]byte, bp.HugeKeys)
+		for i := range hugeKeys {
+			k := buf[w*i : w*i+w : w*i+w]
+			k[0], k[1], k[2] = 'B', s.p.Prefix[0], s.p.Prefix[1]
+			binary.BigEndian.PutUint64(k[3:], uint64(i))
+			hugeKeys[i] = k
+		}
+		for j := 0; j < nSample; j++ {
+			s.pool[bp.SmallKeys+j] = append([]byte(nil), hugeKeys[j*(bp.HugeKeys-1)/(nSample-1)]...)
+		}
+	}
+	s.holders = make([]atomic.Int32, s.p.PoolN)
+	s.tso.Store(s.p.Base)
+	var mu sync.Mutex
+	add := func(rec *c17sRec) { mu.Lock(); recs = append(recs, rec); mu.Unlock() }
+	keysOf := func(idx []int) [][]byte {
+		ks := make([][]byte, len(idx))
+		for i, k := range idx {
+			ks[i] = append([]byte(nil), s.pool[k]...)
+		}
+		return ks
+	}
+	pick := func(n int) []int {
+		m := map[int]bool{}
+		var idx []int
+		for len(idx) < n {
+			if k := rng.Intn(s.p.PoolN); !m[k] {
+				m[k] = true
+				idx = append(idx, k)
+			}
+		}
+		sort.Ints(idx)
+		return idx
+	}
+
+	// phase 1: every holder takes its private lock and parks
+	gate := make(chan struct{})
+	var acquired, all, holdersDone sync.WaitGroup
+	off := 0
+	for h := 0; h < bp.Holders; h++ {
+		idx := make([]int, nks[h])
+		for i := range idx {
+			idx[i] = off + i
+		}
+		off += nks[h]
+		rec := &c17sRec{G: h, Round: 0, Keys: idx, Start: s.tso.Add(1)}
+		ks := keysOf(idx)
+		hr := rand.New(rand.NewSource(s.p.Seed + int64(h)*7919))
+		acquired.Add(1)
+		all.Add(1)
+		holdersDone.Add(1)
+		go func() {
+			defer all.Done()
+			defer holdersDone.Done()
+			parked := false
+			okr := s.request(rec, ks, hr, 6, func(stale bool) {
+				parked = true
+				acquired.Done()
+				if !stale {
+					<-gate
+				}
+			})
+			if !parked {
+				acquired.Done()
+			}
+			if okr {
+				add(rec)
+			}
+		}()
+	}
+	var huge *Lock
+	var hugeRec *c17sRec
+	if bp.HugeKeys > 0 {
+		idx := make([]int, nSample)
+		for j := range idx {
+			idx[j] = bp.SmallKeys + j
+		}
+		hugeRec = &c17sRec{G: -1, Round: 0, Keys: idx, Start: s.tso.Add(1)}
+		hugeRec.Call = s.seq.Add(1)
+		s.inLock.Add(1)
+		func() {
+			defer func() {
+				if p := recover(); p != nil {
+					s.r.Violate("bb:panic-in-Lock", fmt.Sprintf("LatchesScheduler.Lock panicked: %v (lock of %d keys)", p, bp.HugeKeys), map[string]any{"params": s.p})
+				}
+			}()
+			huge = s.sched.Lock(hugeRec.Start, hugeKeys)
+		}()
+		s.inLock.Add(-1)
+		if huge == nil {
+			return nil, false
+		}
+		s.holding.Add(1)
+		hugeRec.Stale = huge.IsStale()
+		hugeRec.Ret = s.seq.Add(1)
+		if !hugeRec.Stale {
+			for _, k := range hugeRec.Keys {
+				s.holders[k].Add(1)
+			}
+		}
+	}
+	if !s.awaitOrAnalyse(&acquired, 120*time.Second, "acquire") {
+		return nil, false
+	}
+
+	// early requests on held keys: they queue up and have to be woken by the
+	// burst; their start ts precede every commit ts of the burst
+	launch := func(round, n int, idx []int, start uint64) {
+		rec := &c17sRec{G: n, Round: round, Keys: idx, Start: start}
+		ks := keysOf(idx)
+		rr := rand.New(rand.NewSource(s.p.Seed + int64(round)*104729 + int64(n)*31))
+		all.Add(1)
+		go func() {
+			defer all.Done()
+			if s.request(rec, ks, rr, 5, nil) {
+				add(rec)
+			}
+		}()
+	}
+	for e := 0; e < bp.Early; e++ {
+		launch(1, e, pick(1+rng.Intn(3)), s.tso.Add(1))
+	}
+	// fresh requests, planned now so that the "old" ones get a start ts that
+	// precedes the commits
+	type plan struct {
+		idx []int
+		old uint64
+	}
+	var fresh []plan
+	for k := 0; k < s.p.PoolN; k++ {
+		fresh = append(fresh, plan{idx: []int{k}})
+	}
+	for i := 0; i < bp.FreshMulti; i++ {
+		fresh = append(fresh, plan{idx: pick(2 + rng.Intn(2))})
+	}
+	for i := range fresh {
+		if rng.Intn(2) == 0 {
+			fresh[i].old = s.tso.Add(1)
+		}
+	}
+	launchFresh := func() {
+		for i, f := range fresh {
+			st := f.old
+			if st == 0 {
+				st = s.tso.Add(1)
+			}
+			launch(2, i, f.idx, st)
+		}
+	}
+	for i := 0; i < 2000 && s.inLock.Load() < int64(bp.Early); i++ { // let the early requests reach the queue (either order is legal)
+		runtime.Gosched()
+	}
+	setup := time.Since(t0)
+	wd := 10 * setup
+	if wd < 15*time.Second {
+		wd = 15 * time.Second
+	}
+	if wd > 150*time.Second {
+		wd = 150 * time.Second
+	}
+
+	// phase 2: the burst
+	stop := make(chan struct{})
+	var maxLen atomic.Int64
+	var samplerDone sync.WaitGroup
+	samplerDone.Add(1)
+	go func() {
+		defer samplerDone.Done()
+		for {
+			select {
+			case <-stop:
+				return
+			default:
+			}
+			if n := int64(len(s.sched.unlockCh)); n > maxLen.Load() {
+				maxLen.Store(n)
+			}
+			runtime.Gosched()
+		}
+	}()
+	stopSampler := func() { close(stop); samplerDone.Wait() }
+	switch bp.Family {
+	case "huge-lock":
+		if !hugeRec.Stale {
+			for _, k := range hugeRec.Keys {
+				s.holders[k].Add(-1)
+			}
+			hugeRec.Commit = s.tso.Add(1)
+			huge.SetCommitTS(hugeRec.Commit)
+		}
+		hugeRec.Unl = s.seq.Add(1)
+		s.unlCalled.Add(1)
+		s.sched.UnLock(huge)
+		s.holding.Add(-1)
+		s.done.Add(1)
+		add(hugeRec)
+		close(gate)
+	case "stall":
+		slots := s.sched.latches.slots
+		for i := range slots {
+			slots[i].Lock()
+		}
+		before := s.unlCalled.Load()
+		close(gate)
+		for i := 0; i < 4000; i++ {
+			if s.unlCalled.Load()-before >= int64(bp.Holders) {
+				break
+			}
+			if i < 1000 {
+				runtime.Gosched()
+			} else {
+				time.Sleep(time.Millisecond)
+			}
+		}
+		for i := 0; i < 50; i++ {
+			runtime.Gosched()
+		}
+		for i := range slots {
+			slots[i].Unlock()
+		}
+	default:
+		close(gate)
+	}
+	if bp.FreshConcurrent {
+		launchFresh()
+	} else {
+		if !s.awaitOrAnalyse(&holdersDone, wd, "holders-unlock") {
+			stopSampler()
+			return nil, false
+		}
+		launchFresh()
+	}
+	fin := s.awaitOrAnalyse(&all, wd, "fresh-requests")
+	stopSampler()
+	if !fin {
+		return nil, false
+	}
+	s.r.Count("burst_sessions", 1)
+	s.r.Count("burst_sessions_"+bp.Family, 1)
+	s.r.Count("burst_unlocks", bp.Holders)
+	if maxLen.Load() >= lockChanSize {
+		s.r.Count("burst_sessions_unlock_channel_full", 1)
+	}
+	return recs, true
+}
+
 func TestVerifC17Stress(t *testing.T) {
 	r := vrep.New("C17", "c17-stress",
 		"black-box concurrent stress of LatchesScheduler (Lock/UnLock/SetCommitTS/IsStale as KVTxn.Commit uses them) under -race: sessions of 2..12 goroutines x rounds x 1..3 requests, 1..3 distinct keys out of 2..6 on tables of 1/2/4 slots, start/commit ts from a TSO counter or random in a sliding window (ties possible), 1 in 5 holders rolled back, ts base 0 or a realistic TSO; "+
 			"oracles: online holder counter per key, history check per key (no overlap of [Lock return, UnLock call] of non-stale holders; non-stale later holder => start >= commit of every earlier holder; stale => justified by an unlocked holder with commit > start), every round terminates (watchdog -> logical-state analysis); "+
+			"unlock-burst families (back-pressure on the scheduler goroutine and its bounded unlock channel): 150..600 parked holders of private 1..3-key locks plus queued early requests, all holders UnLock at once while the scheduler goroutine is busy releasing one lock of 10^5..10^6 keys / blocked on held slot mutexes / merely outnumbered, then a fresh request per key and multi-key ones (start ts before or after the commits), same history oracle; progress decided on the logical state after a watchdog of ten times the session's set-up (every UnLock returned, unlock channel empty, nothing completes, requests still in Lock => dropped unlock / lost wake-up); "+
 			"evaluations = Lock returns judged; distinct = stale requests + requests that had to wait for a holder of a shared key, each counted once")
 	defer r.Finish(t)
+	// unlock-burst families (own random stream: the sessions below stay as they were)
+	bm := vrep.Rand("c17-stress-burst")
+	nHuge, nStall, nPlain := vrep.Pick(4, 24), vrep.Pick(24, 240), vrep.Pick(8, 80)
+	var fams []string
+	for _, f := range []struct {
+		name string
+		n    int
+	}{{"huge-lock", nHuge}, {"stall", nStall}, {"plain", nPlain}} {
+		for i := 0; i < f.n; i++ {
+			fams = append(fams, f.name)
+		}
+	}
+	bm.Shuffle(len(fams), func(i, j int) { fams[i], fams[j] = fams[j], fams[i] })
+	if only := os.Getenv("VERIF_C17_BURST_ONLY"); only != "" { // hand runs: one family (the floors then report inconclusive)
+		var l []string
+		for _, f := range fams {
+			if f == only {
+				l = append(l, f)
+			}
+		}
+		fams = l
+	}
+	for bn, fam := range fams {
+		bp := &c17bParams{Family: fam, Holders: 150 + bm.Intn(451), Early: bm.Intn(120), FreshMulti: bm.Intn(60), FreshConcurrent: bm.Intn(3) == 0}
+		p := c17sParams{Session: 1000000 + bn, Seed: bm.Int63(), Realistic: true, Burst: bp}
+		switch fam {
+		case "huge-lock":
+			bp.HugeKeys = vrep.Pick(200000, 100000+bm.Intn(900001))
+			p.Size = uint(1) << uint(13+bm.Intn(6)) // 8Ki..256Ki slots: chains stay short enough for 10^6 keys
+			if vrep.Thorough() && bp.HugeKeys > 400000 && p.Size < 1<<15 {
+				p.Size = 1 << 15
+			}
+		case "stall":
+			p.Size = []uint{1, 4, 16, 64}[bm.Intn(4)]
+		default:
+			p.Size = []uint{1, 4, 64, 1024}[bm.Intn(4)]
+		}
+		if bm.Intn(2) == 0 {
+			p.Base = c17sBigBase
+		}
+		p.Prefix = string(rune('a'+bm.Intn(26))) + string(rune('a'+bm.Intn(26)))
+		s := &c17sSession{p: p, r: r}
+		recs, ok := s.runBurst(rand.New(rand.NewSource(p.Seed)))
+		if !ok {
+			break // goroutines of a stuck session stay behind; the other families of this unit go on
+		}
+		s.check(recs)
+		r.Count("burst_requests", len(recs))
+		if bn < 2 {
+			r.Sample(map[string]any{"params": s.p, "requests": len(recs)})
+		}
+		if r.NViolations() > 20 {
+			break
+		}
+	}
+	r.Floor("burst_sessions", vrep.Pick(30, 300))
+	r.Floor("burst_sessions_huge-lock", vrep.Pick(3, 20))
+	r.Floor("burst_sessions_unlock_channel_full", vrep.Pick(20, 200))
+	r.Floor("burst_unlocks", vrep.Pick(8000, 80000))
+
 	master := vrep.Rand("c17-stress")
 	sessions := vrep.Pick(1200, 12000)
 	for sn := 0; sn < sessions; sn++ {
